@@ -111,14 +111,17 @@ def count_roundings(t):
     one rounding in f64 / one fpdec operation)."""
     if not isinstance(t, tuple):
         return 0
-    n = 1 if t[0] in ("+", "-", "*", "/") else 0
-    for x in t[1:]:
-        if isinstance(x, tuple):
-            if t[0] == "app" and x is t[3]:
-                n += sum(count_roundings(y) for y in x)
-            else:
-                n += count_roundings(x)
-    return n
+    h = t[0]
+    if h in ("p", "num", "str", "bool", "unit", "variant", "none", "const", "panic", "closure", "bytes", "opaque_lit", "fnref", "cv"):
+        return 0
+    if h == "app":
+        return sum(count_roundings(x) for x in t[3])
+    if h == "adt":
+        return sum(count_roundings(x) for _n, x in t[3])
+    if h in ("tuple", "array"):
+        return sum(count_roundings(x) for x in t[1])
+    n = 1 if h in ("+", "-", "*", "/") else 0
+    return n + sum(count_roundings(x) for x in t[1:] if isinstance(x, tuple))
 
 
 def has_arith(t):
